@@ -352,6 +352,58 @@ def rw_range_contains(tl):
     return out, cnt
 
 
+def rw_patterns(tl, rules):
+    """Generic exact-pattern rewriting. rules: list of (pattern, replacement) as source strings; in a pattern
+    $I matches one identifier, $C one char literal, $S one string literal; the replacement may use them."""
+    comp = [(T(p.replace("$", "__W_")), T(r.replace("$", "__W_"))) for p, r in rules]
+    out = []
+    i = 0
+    cnt = 0
+    while i < len(tl):
+        hit = False
+        for pat, rep in comp:
+            if i + len(pat) > len(tl):
+                continue
+            env = {}
+            ok = True
+            for k, p in enumerate(pat):
+                t = tl[i + k]
+                if p.startswith("__W_"):
+                    kind = p[4]
+                    good = (kind == "I" and (t[0].isalpha() or t[0] == "_")) or (kind == "C" and t.startswith("'")) \
+                        or (kind == "S" and t.startswith('"'))
+                    if not good or (p in env and env[p] != t):
+                        ok = False
+                        break
+                    env[p] = t
+                elif p != t:
+                    ok = False
+                    break
+            if ok:
+                out += [env.get(r, r) for r in rep]
+                i += len(pat)
+                cnt += 1
+                hit = True
+                break
+        if not hit:
+            out.append(tl[i])
+            i += 1
+    return out, cnt
+
+
+STR_RULES = [
+    ("$I == * $S", "str_is(&$I, $S)"),
+    ("$I.starts_with($C)", "str_starts_with(&$I, $C)"),
+    ("$I[1..].to_string()", "str_skip1(&$I)"),
+    ("$I.split($C).map(|x| x.to_string()).collect::<Vec<_>>()", "str_split(&$I, $C)"),
+]
+
+
+def rw_str_plumbing(tl):
+    """R9: std string plumbing of Num::from_string replaced by trusted helpers with sequence-level specs."""
+    return rw_patterns(tl, STR_RULES)
+
+
 # --- R1: operators on references ------------------------------------------------------------
 
 BINOPS = {"*", "/", "%", "+", "-", "<", ">", "<=", ">=", "==", "!=", "&&", "||", "^", "|", "&", "<<", ">>"}
